@@ -23,6 +23,9 @@ EXPLANATION = (
     " R20.7: the writer leaves a zero rect radius out and the reader takes a missing radius for 'auto' (the"
     ' copy of the other one); this is the same rectangle only because validation never leaves exactly one'
     " radius at zero, so C06's corner table runs here as well."
+    " R20.8: path data is written by Path.svg_d and read back by the path parser; C07's running-point rule"
+    ' R07.3 (initial point, every segment written relative to the running point, advance on every path, smooth'
+    ' shorthand, both loops alike) runs here as well.'
 )
 TECHNIQUE = (
     "static analysis (no execution): writer/reader attribute-key agreement tables; reader-default vs writer skip rule; def-use roles for the inverse-viewport composition order and paint emission"
@@ -31,7 +34,7 @@ ASSUMPTIONS = [
     "Reader-side tables (tag -> class, keys read per class, defaults) are extracted from SVG.parse and property_by_values on every run.",
     "Trees built through constructors whose Group/Use nodes carry a transform that was not folded into the children are a known finding (R20.3b).",
 ]
-FLOORS = {"R20.1": 10, "R20.2": 8, "R20.3": 3, "R20.4": 4, "R20.6": 10, "R20.7": 6}
+FLOORS = {"R20.1": 10, "R20.2": 8, "R20.3": 3, "R20.4": 4, "R20.6": 10, "R20.7": 6, "R20.8": 8}
 
 GEOM = {
     "Ellipse": {"cx", "cy", "rx", "ry"},
@@ -71,6 +74,12 @@ def run(ctx):
     from . import c06
 
     c06.corner_table(ctx.renamed("R20.7"))
+    # path data is written by Path.svg_d (through node.d(transformed=False)) and read back by the path parser: the
+    # running-point discipline of C07 R07.3 is what makes the relative operands of the written text mean the same points
+    ctx.rule("R20.8", "written path data: every segment is written relative to a running point that advances on every path through the loop (obligations shared with C07 R07.3)")
+    from . import c07
+
+    c07.svg_d(ctx.renamed("R20.8"))
 
 
 def emitted(ctx, body):
